@@ -7,7 +7,7 @@ from .. import gens, ref, util
 from ..core import Part
 
 PROPERTY = "C03"
-RULE = ("enum: every composition (n+, n-, n0) with N<=27 (quick) / N<=44 (thorough), each presented through 3 "
+RULE = ("enum: every composition (n+, n-, n0) with N<=27 (quick) / N<=44 (thorough), each presented through 2 random arrangements and one segregated (block) arrangement, "
         "seed-chosen arrangements and spellings; hyp: random compositions to 120 (quick) / 300 (thorough) residues with "
         "boosted regime boundaries (n0 in 16..20, n+ = n-, equal blocks, single minority charge), 2 presentations each. "
         "maximisers-after-kappa: every composition with 5<=N<=10/13 at its brute-forced delta-maximiser, queried after get_kappa() on the same object; long-neighbours: 2-4 compositions of one length 101..160 differing by one residue, analysed one after another in the same process; random cases <=40 residues may follow a warm-up history. Oracle: (i) all presentations return the same value; (ii) get_deltaMax(True) returns (v, s) with v equal to the plain "
@@ -60,7 +60,8 @@ def check_comp(ctx, case):
 
 
 def mk_case(P, M, Z, rnd, k):
-    return {"comp": [P, M, Z], "seqs": [util.spell(util.arrange(P, M, Z, rnd), rnd) for _ in range(k)]}
+    return {"comp": [P, M, Z], "seqs": [util.spell(util.arrange(P, M, Z, rnd), rnd) for _ in range(k - 1)] +
+            [util.spell(util.arrange_blocky(P, M, Z, rnd), rnd)]}
 
 
 def enum_cases(tier, seed):
@@ -86,6 +87,7 @@ def maximiser_cases(tier, seed):
     for P, M, Z in util.all_compositions(hi, 5):
         best = patmax.table(P + M + Z)[(P, M, Z)]
         yield {"comp": [P, M, Z], "seqs": [util.spell(best, rnd)], "warm": [["get_kappa", None]]}
+        yield {"comp": [P, M, Z], "seqs": [util.spell(best, rnd)], "warm": [["get_deltaMax", [True]], ["get_delta", None]]}
 
 
 def check_neighbours(ctx, case):
